@@ -50,7 +50,8 @@ def gen_req(rnd, script, idx):
     if rnd.random() < 0.4:
         wire = []
         for i in range(rnd.choice([1, 2, 3])):
-            v = rnd.choice([b"1", b"abc", b"a%20b", b"", b"x-y_z.~", b"two words", b"semi;colon", b"com,ma", b"q\"uote"])
+            v = rnd.choice([b"1", b"abc", b"a%20b", b"", b"x-y_z.~", b"two words", b"semi;colon", b"com,ma", b"q\"uote",
+                            b"YWJj/ZGVm+Zw==", b"t=x:y", b"user@host", b"q?z=1&w", b"[1]{2}(3)<4>", b"a/b/c", b"!#$%&'*+-.^_`|~"])    # RFC 6265 cookie-octets
             cookies.append((b"c%d" % i, v))
             if any(c in v for c in b" ;,\""):
                 wire.append(b"c%d=\"" % i + v.replace(b"\\", b"\\\\").replace(b"\"", b"\\\"") + b"\"")     # quoted-string form
